@@ -165,3 +165,84 @@ func log2(n int) int {
 	}
 	return k
 }
+
+// runSizesC08: the same size thresholds for C08 — an index of N sequential ids built
+// incrementally (three chunks, then updates of existing ids, removals and re-insertions) must
+// answer exactly like the index filled by ONE Set call.
+func runSizesC08(r *corr.Run) {
+	var sizes []int
+	if r.Quick() {
+		sizes = []int{1<<(10+r.Intn(6)) + r.Intn(2)}
+	} else {
+		for k := 17; k >= 8; k-- {
+			sizes = append(sizes, 1<<k+1, 1<<k)
+		}
+	}
+	t0 := time.Now()
+	for si, n := range sizes {
+		if si > 0 && !r.TimeLeft() {
+			break
+		}
+		if r.Quick() && time.Since(t0) > 6*time.Second {
+			break
+		}
+		df, thr := pickParams(r)
+		if r.Chance(40) {
+			df, thr = 32, 256
+		}
+		ids := make([]string, n)
+		for i := range ids {
+			ids[i] = fmt.Sprintf("s-%d", i)
+		}
+		w := newWorld(ids)
+		c := contents{}
+		x := real.New(df, thr)
+		ops := []string{fmt.Sprintf("new x %d %d", df, thr), fmt.Sprintf("# %d sequential ids s-0..s-%d in three Set calls, then 64 updates, 64 removals, 32 re-insertions", n, n-1)}
+		perr := safely(func() {
+			order := r.Perm(len(w.ids))
+			for part := 0; part < 3; part++ {
+				lo, hi := part*len(order)/3, (part+1)*len(order)/3
+				els := make([]real.Element, 0, hi-lo)
+				for _, id := range order[lo:hi] {
+					c[id] = 4
+					els = append(els, w.el(id, 4))
+				}
+				x.Set(els...)
+			}
+			var removed []int
+			for i := 0; i < 64; i++ {
+				id := r.Intn(len(w.ids))
+				c[id] = 5
+				x.Set(w.el(id, 5))
+			}
+			for i := 0; i < 64; i++ {
+				id := r.Intn(len(w.ids))
+				if _, ok := c[id]; ok {
+					delete(c, id)
+					if err := x.RemoveId(w.ids[id]); err != nil {
+						panic(err)
+					}
+					removed = append(removed, id)
+				}
+			}
+			for i := 0; i < 32 && i < len(removed); i++ {
+				c[removed[i]] = 6
+				x.Set(w.el(removed[i], 6))
+			}
+		})
+		if perr != "" {
+			r.Violate("C08", "", "ldiff.size.history", perr, ops)
+			continue
+		}
+		y, perr := w.fresh(df, thr, c, nil)
+		if perr != "" {
+			r.Violate("C08", "", "ldiff.size.fresh", perr, ops)
+			continue
+		}
+		if msg := safeCompare(r, w, x, y, c, df, thr, 600); msg != "" {
+			r.Violate("C08", "", "ldiff.size.oracle", fmt.Sprintf("df=%d thr=%d n=%d: %s", df, thr, n, clip(msg)), ops)
+		}
+		r.Count(fmt.Sprintf("c08.size.n~2^%d", log2(n)))
+		r.Case(fmt.Sprintf("c08 size %d %d %d", n, df, thr), true)
+	}
+}
